@@ -236,12 +236,15 @@ def bind(pat, expr, by_ref_closure):
     return "let %s = %s;" % (pat, expr)
 
 
-def lower_body(text, ctr=None, log=None):
-    """apply rules until no rule fires; returns new text. log collects (rule, original_snippet)"""
+def lower_body(text, ctr=None, log=None, ctx=None):
+    """apply rules until no rule fires; returns new text. log collects (rule, original_snippet).
+    ctx: dict(mut_iter_vars=[..]) identifiers that are `&mut` places when iterated"""
     ctr = ctr or Ctr()
     log = log if log is not None else []
+    ctx = ctx or {}
+    ctx["ctr"] = ctr
     for _ in range(200):
-        new = _lower_once(text, ctr, log)
+        new = _lower_once(text, ctr, log, ctx)
         if new is None:
             return text
         text = new
@@ -275,14 +278,35 @@ def _range_primary(ch):
 CONSUMERS = {"fold", "find", "any", "all", "position", "max", "collect", "retain", "for_each", "unwrap_or", "flatten", "iter", "abs", "extend", "sort", "dedup", "into_iter", "replace", "to_string", "to_owned"}
 
 
-def _lower_once(text, ctr, log):
+def _lower_once(text, ctr, log, ctx):
     # ---- for-loops over flatten (R3) are statement-level: handled first
     m = _find_for_flatten(text)
     if m:
         a, b, repl, orig = m(ctr)
         log.append(("R3", orig))
         return text[:a] + repl + text[b:]
-    chains = find_chains(text, {"fold", "unwrap_or", "any", "all", "position", "unwrap", "collect", "retain"})
+    # R11 first: closures handed to rayon become plain blocks / loops before the loops inside them are looked at
+    for ch in find_chains(text, {"for_each", "install"}):
+        ms = ch.methods()
+        r = None
+        if ms[-2:] == ["par_iter_mut", "for_each"]:
+            r = _r11_foreach(ch, ctr)
+        elif ms and ms[-1] == "install" and ch.segs[-1].kind == "method":
+            r = _r11_install(ch, ctr)
+        if r is not None:
+            log.append(("R11", ch.src()))
+            return text[:ch.start] + r + text[ch.end:]
+    m = _find_for_container(text, ctx)
+    if m:
+        a, b, repl, orig, rule = m
+        log.append((rule, orig))
+        return text[:a] + repl + text[b:]
+    m = _find_entry_idiom(text, ctr)
+    if m:
+        a, b, repl, orig = m
+        log.append(("R13", orig))
+        return text[:a] + repl + text[b:]
+    chains = find_chains(text, {"fold", "unwrap_or", "any", "all", "position", "unwrap", "collect", "retain", "for_each", "install", "unwrap_or_else", "expect"})
     for ch in chains:
         ms = ch.methods()
         r = None
@@ -298,6 +322,9 @@ def _lower_once(text, ctr, log):
         elif ms[-2:] == ["iter", "position"]:
             r = _r5(ch, ctr)
             rule = "R5"
+        elif ms[-4:] == ["iter", "map", "max", "unwrap_or"]:
+            r = _r6b(ch, ctr)
+            rule = "R6"
         elif ms[-3:] == ["iter", "max", "unwrap"]:
             r = _r6(ch, ctr)
             rule = "R6"
@@ -307,9 +334,21 @@ def _lower_once(text, ctr, log):
         elif ms and ms[-1] == "retain" and ch.segs[-1].kind == "method":
             r = _r12(ch, ctr)
             rule = "R12"
+        elif ms[-2:] == ["par_iter_mut", "for_each"]:
+            r = _r11_foreach(ch, ctr)
+            rule = "R11"
+        elif ms and ms[-1] == "install" and ch.segs[-1].kind == "method":
+            r = _r11_install(ch, ctr)
+            rule = "R11"
+        elif ms and ms[-1] == "unwrap_or_else" and "panic!" in _arg(ch, ch.segs[-1]):
+            r = "vx_unwrap(" + ch.prefix_text(len(ch.segs) - 1) + ")"
+            rule = "R8"
+        elif ms and ms[-1] == "expect" and ch.segs[-1].kind == "method":
+            r = "vx_unwrap(" + ch.prefix_text(len(ch.segs) - 1) + ")"
+            rule = "R8"
         if r is not None:
             log.append((rule, ch.src()))
-            if rule != "R12":
+            if rule not in ("R12", "R11", "R8"):
                 r = "(" + r + ")"   # expression position: keep the block from being parsed as a statement / loop body
             return text[:ch.start] + r + text[ch.end:]
     return None
@@ -411,6 +450,19 @@ def _r6(ch, ctr):
         recv, n, n, n, recv, recv, n, recv, n, n, n, n, recv, n)
 
 
+def _r6b(ch, ctr):
+    """E.iter().map(F).max().unwrap_or(D): maximum of F over the elements, D when there is none"""
+    recv = ch.prefix_text(len(ch.segs) - 4)
+    f = _arg(ch, ch.segs[-3]).strip()
+    d = _arg(ch, ch.segs[-1]).strip()
+    cl = parse_closure(f)
+    n = ctr.next()
+    call = ("{ %s %s }" % (bind(cl[0], "&%s[k_%d]" % (recv, n), False), cl[1])) if cl else "%s(&%s[k_%d])" % (f, recv, n)
+    return ("{\n let mut best_%d = None;\n let mut k_%d: usize = 0;\n /*@L:R6*/ while k_%d < %s.len()\n {\n let v_%d = %s;\n"
+            " match best_%d { Some(b) => { if v_%d >= b { best_%d = Some(v_%d); } } None => { best_%d = Some(v_%d); } }\n k_%d += 1;\n }\n"
+            " match best_%d { Some(b) => b, None => %s }\n}") % (n, n, n, recv, n, call, n, n, n, n, n, n, n, n, d)
+
+
 def _r7(ch, ctr):
     ms = ch.methods()
     n = ctr.next()
@@ -482,6 +534,159 @@ def _find_for_flatten(text):
                 return a, b, repl, orig
             return mk
     return None
+
+
+def subst_ident(text, name, repl):
+    """replace free occurrences of identifier `name` (not a field / method name, not a path segment) by repl"""
+    toks = lex(text)
+    out, last = [], 0
+    for i, t in enumerate(toks):
+        if t.kind == "ident" and t.text == name:
+            prv = toks[i - 1].text if i > 0 else ""
+            nxt = toks[i + 1].text if i + 1 < len(toks) else ""
+            if prv in (".", "::") or nxt == "::" or (nxt == ":" and prv in ("{", ",")):
+                continue
+            out.append(text[last:t.start])
+            out.append(repl)
+            last = t.end
+    out.append(text[last:])
+    return "".join(out)
+
+
+_MODE = re.compile(r"^/\*@mode:(mut|value|shared)\*/\s*")
+
+
+def _find_for_container(text, ctx):
+    """`for PAT in E BLOCK` over a container (not a range / iterator chain):
+       R14  E = `&mut X` (or a `&mut` place)  ->  index loop, PAT replaced by X.vx_at_mut(k)
+       R15  E by value                         ->  `let mut it = E; while it.len() > 0 { let PAT = it.vx_pop_front(); BLOCK }`
+       R16  E = `&X`                           ->  index loop, `let PAT = X.vx_at(k);`"""
+    toks = lex(text)
+    mm = match_map(toks)
+    for i, t in enumerate(toks):
+        if not (t.kind == "ident" and t.text == "for"):
+            continue
+        if i > 0 and toks[i - 1].text in ("<", "+", ":", "dyn", "impl", "where", ","):
+            continue
+        if toks[i + 1].text == "<":
+            continue
+        j = i + 1
+        while j < len(toks) and not (toks[j].kind == "ident" and toks[j].text == "in"):
+            if toks[j].text in ("(", "["):
+                j = mm[j]
+            j += 1
+        if j >= len(toks):
+            continue
+        k = j + 1
+        while toks[k].text != "{":
+            if toks[k].text in ("(", "["):
+                k = mm[k]
+            k += 1
+        expr = text[toks[j].end:toks[k].start].strip()
+        pat = text[toks[i + 1].start:toks[j - 1].end].strip()
+        if ".." in expr and not expr.startswith("&"):
+            continue   # range: Verus handles `for x in a..b`
+        mode = None
+        mo = _MODE.match(expr)
+        if mo:
+            mode, expr = mo.group(1), expr[mo.end():]
+        elif expr.startswith("&mut "):
+            mode, expr = "mut", expr[5:].strip()
+        elif expr.startswith("&"):
+            mode, expr = "shared", expr[1:].strip()
+        elif re.match(r"^[A-Za-z_][A-Za-z0-9_]*$", expr) and expr in ctx.get("mut_iter_vars", ()):
+            mode = "mut"
+        elif re.search(r"\.(iter|iter_mut|into_iter|vx_iter|chain|map|filter|rev|zip)\s*\(", expr):
+            continue   # iterator expression: other rules / Verus
+        else:
+            mode = "value"
+        if not re.match(r"^[A-Za-z_][A-Za-z0-9_]*$", pat):
+            continue
+        body = text[toks[k].start:toks[mm[k]].end]
+        a, b = t.start, toks[mm[k]].end
+        orig = text[a:toks[k].start]
+        n = ctx["ctr"].next()
+
+        def mark_inner(bd, var, md):
+            # inner `for Q in var` inherits the mode
+            return re.sub(r"(\bfor\s+[A-Za-z_][A-Za-z0-9_]*\s+in\s+)%s(\s*\{)" % re.escape(var), r"\1/*@mode:%s*/ %s\2" % (md, var), bd)
+        if mode == "mut":
+            place = "%s.vx_at_mut(a_%d)" % (expr, n)
+            bd = mark_inner(body, pat, "mut")
+            bd = subst_ident(bd, pat, place)
+            shared = expr.replace("vx_at_mut", "vx_at")
+            repl = ("{\n let mut a_%d: usize = 0;\n /*@L:R14*/ while a_%d < %s.len()\n {\n %s\n a_%d += 1;\n }\n}") % (n, n, shared, bd, n)
+            return a, b, repl, orig, "R14"
+        if mode == "shared":
+            bd = mark_inner(body, pat, "shared")
+            repl = ("{\n let mut a_%d: usize = 0;\n /*@L:R16*/ while a_%d < %s.len()\n {\n let %s = %s.vx_at(a_%d);\n %s\n a_%d += 1;\n }\n}") % (
+                n, n, expr, pat, expr, n, bd, n)
+            return a, b, repl, orig, "R16"
+        bd = mark_inner(body, pat, "value")
+        repl = ("{\n let mut it_%d = %s;\n /*@L:R15*/ while it_%d.len() > 0\n {\n let %s = it_%d.vx_pop_front();\n %s\n }\n}") % (n, expr, n, pat, n, bd)
+        return a, b, repl, orig, "R15"
+    return None
+
+
+def _r11_foreach(ch, ctr):
+    """X.par_iter_mut().for_each(|PAT| BODY): rayon calls the closure exactly once per element and returns after all
+    calls returned (trusted); under that contract it is `for PAT in &mut X BODY`"""
+    cl = parse_closure(_arg(ch, ch.segs[-1]))
+    if cl is None:
+        return None
+    recv = ch.prefix_text(len(ch.segs) - 2)
+    return "/*@R11 par_iter_mut().for_each*/ for %s in &mut %s %s" % (cl[0].strip(), recv, _as_block(cl[1]))
+
+
+def _r11_install(ch, ctr):
+    """POOL.install(move || BODY): runs BODY once inside the pool and returns its result (trusted)"""
+    cl = parse_closure(_arg(ch, ch.segs[-1]))
+    if cl is None:
+        return None
+    recv = ch.prefix_text(len(ch.segs) - 1)
+    return "{ let pool_%d = %s; vx_pool_install(pool_%d); %s }" % (ctr.n, recv, ctr.n, _as_block(cl[1]))
+
+
+def _find_entry_idiom(text, ctr):
+    """R13: `if let Entry::Vacant(E) = M.entry(K) { ..E.insert(V).. } else ELSE`
+            ->  `{ let key_n = K; if M.vx_vacant(&key_n) { ..M.vx_insert_vacant(key_n, V).. } else ELSE }`"""
+    m = re.search(r"\bif\s+let\s+Entry::Vacant\(\s*([a-z_][a-z0-9_]*)\s*\)\s*=\s*", text)
+    if not m:
+        return None
+    toks = lex(text)
+    mm = match_map(toks)
+    # expression after '=' up to the block '{'
+    st = None
+    for i, t in enumerate(toks):
+        if t.start >= m.end():
+            st = i
+            break
+    k = st
+    while toks[k].text != "{":
+        if toks[k].text in ("(", "["):
+            k = mm[k]
+        k += 1
+    expr = text[toks[st].start:toks[k].start].strip()
+    me = re.match(r"^(.*)\.entry\((.*)\)$", expr, re.S)
+    if not me:
+        raise Unsupported("entry idiom shape: %r" % expr)
+    recv, key = me.group(1).strip(), me.group(2).strip()
+    e = m.group(1)
+    blk_end = mm[k]
+    block = text[toks[k].start:toks[blk_end].end]
+    n = ctr.next()
+    block2 = re.sub(r"\b%s\s*\.\s*insert\s*\(" % re.escape(e), "%s.vx_insert_vacant(key_%d, " % (recv, n), block)
+    if block2 == block:
+        raise Unsupported("entry idiom without insert")
+    # else branch (optional)
+    end = toks[blk_end].end
+    tail = ""
+    if blk_end + 1 < len(toks) and toks[blk_end + 1].text == "else":
+        e2 = mm[blk_end + 2]
+        tail = " else " + text[toks[blk_end + 2].start:toks[e2].end]
+        end = toks[e2].end
+    repl = "{\n let key_%d = %s;\n if %s.vx_vacant(&key_%d) %s%s\n}" % (n, key, recv, n, block2, tail)
+    return m.start(), end, repl, text[m.start():toks[k].start]
 
 
 # ---------------------------------------------------------------------------------------------
